@@ -82,6 +82,17 @@ def check_exp(ctx: Ctx, c: Dict[str, Any], k_: int = 0) -> None:
             bad("StationaryVelocityFieldTransform", f"buffer u differs from the closed form by {max_err(u, exp):.3g}")
         if u is not None and max_err(t.v, v32) > 1e-6:
             bad("StationaryVelocityFieldTransform", "buffer v is not the velocity field")
+    # the same transform reached through a grid change: built on the grid with the OTHER align_corners convention (velocities expressed
+    # in that convention), then moved to g with grid_(); the exponential must follow the new convention
+    g_other = g.align_corners(not ac)
+    v_other = guarded("FlowFields.axes", lambda: FlowFields(v32, g, Axes.from_align_corners(ac)).axes(Axes.from_align_corners(not ac)).tensor())
+    if v_other is not None:
+        t2 = guarded("StationaryVelocityFieldTransform", lambda: StationaryVelocityFieldTransform(g_other, params=v_other.clone(), scale=s, steps=k), route="grid_")
+        if t2 is not None:
+            u2 = guarded("StationaryVelocityFieldTransform.grid_", lambda: t2.update().grid_(g).update().u, route="grid_")
+            if u2 is not None and max_err(u2, exp) > 5e-5:
+                bad("StationaryVelocityFieldTransform.grid_", f"after grid_() to the grid with align_corners={ac} the displacement differs from the closed form by {max_err(u2, exp):.3g}",
+                    route="grid_")
     f0 = FlowFields(v32, g, Axes.from_align_corners(ac))
     e = guarded("FlowFields.exp", lambda: f0.exp(scale=s, steps=k))
     if e is not None and max_err(e.tensor(), exp) > 2e-5:
